@@ -17,7 +17,7 @@ def setup():
     S = world.mod("mokapot.streaming")
     T = world.mod("mokapot.tabular_data")
     _float = float
-    world.rebind(U, np=symnp, pd=sympd, TabularDataReader=vfs.VReader,
+    world.rebind(U, np=symnp, pd=sympd, pq=vfs.pq_stub, TabularDataReader=vfs.VReader,
                  float=lambda x: x if isinstance(x, __import__("symx").core.Sym) else _float(x))
     world.rebind(S, np=symnp, pd=sympd)
     world.rebind(T, np=symnp, pd=sympd)
@@ -66,7 +66,7 @@ def sym_merge_sort(ctx, cfg):
     zs, ids = _mk(ctx, lens, True)
     paths = []
     for a, n in enumerate(lens):
-        p = vfs.VPath("/vfs/scores_metadata_%d.pin" % a)
+        p = vfs.VPath("/vfs/scores_metadata_%d%s" % (a, cfg.get("suffix", ".pin")))
         vfs.put(p, sympd.DataFrame({"id": ids[a], "score": [SNum(z) for z in zs[a]], "payload": ["payload%d" % i for i in ids[a]]}))
         paths.append(p)
     cs = int(ctx.fresh_int("merge_sort_chunk_size", 1, max(lens) + 1))
@@ -155,6 +155,11 @@ def harnesses(tier):
     for lens in ms:
         hs.append(Harness("merge_sort%s" % lens, dict(lens=lens), sym_merge_sort, real="merge_sort",
                           functions=[U.merge_sort, U.get_next_row, U.csv_row_iterator], bounds=dict(inputs=len(lens), rows=lens, chunk="1..max+1"), stubs=stubs,
+                          assumptions=["each input is sorted by score, non-increasing (ties allowed)", "every input has >= 1 row"]))
+    for lens in ([[2, 1], [2, 2], [1, 2, 1]] if tier == "quick" else [[2, 1], [2, 2], [3, 2], [1, 2, 1], [2, 2, 2]]):
+        hs.append(Harness("merge_sort%s,parquet" % lens, dict(lens=lens, suffix=".parquet"), sym_merge_sort, real="merge_sort",
+                          functions=[U.merge_sort, U.get_next_row, U.parquet_row_iterator], bounds=dict(inputs=len(lens), rows=lens, chunk="1..max+1"),
+                          stubs=stubs + ["pyarrow ParquetFile.iter_batches -> VFS contract (probed)"],
                           assumptions=["each input is sorted by score, non-increasing (ties allowed)", "every input has >= 1 row"]))
     for lens in mr:
         for desc in (True, False):
